@@ -168,6 +168,19 @@ fn is_svg_only_text_position(value: &str) -> bool {
     }
 }
 
+/// Generate events for `el`, which stands for the element being processed (e.g. a shape
+/// whose text content has become a `text` attribute) rather than for a child of it:
+/// it is not a further level of nesting.
+fn generate_same_level(
+    el: &SvgElement,
+    context: &mut TransformerContext,
+) -> Result<(OutputList, Option<BoundingBox>)> {
+    context.dec_depth()?;
+    let result = el.generate_events(context);
+    context.inc_depth()?;
+    result
+}
+
 /// Container will be used for many elements which contain other elements,
 /// but have no independent behaviour, such as defs, linearGradient, etc.
 #[derive(Debug, Clone)]
@@ -229,7 +242,7 @@ impl EventGen for Container {
                 if let Some((start, _end)) = self.0.event_range {
                     el.event_range = Some((start, start)); // emulate an Empty element
                 }
-                el.generate_events(context)
+                generate_same_level(&el, context)
             } else if is_shape && self.0.name != "text" && inner_text.is_none() {
                 // A shape with child elements (<title>, <animate>, ...): positioned, sized
                 // and given text as if it were empty, then written around its children.
@@ -237,7 +250,7 @@ impl EventGen for Container {
                 if let Some((start, _end)) = self.0.event_range {
                     el.event_range = Some((start, start)); // emulate an Empty element
                 }
-                let (shape_events, bbox) = el.generate_events(context)?;
+                let (shape_events, bbox) = generate_same_level(&el, context)?;
                 let (child_events, _) = process_events(inner_events, context)?;
                 let mut events = OutputList::new();
                 let mut children = Some(child_events);
